@@ -70,6 +70,12 @@ namespace
               if(var.scenario == S_MOVE) { M tmp = A0.clone(CloneMode::Deep); M moved(std::move(tmp)); A = std::move(moved); }
               if(var.scenario >= S_CLONE_DEEP) c.count("derived_object_cases");
               auto mh = [&]{ verif::Hash h; leaves(A0, h); leaves(A, h); return h.get(); };
+              if(var.scenario == S_HIST)
+              {
+                // the counterpart operation (other transposedness, native vectors) on the same object first
+                VL hl = A.create_vector_l(); VR hr = A.create_vector_r();
+                if(op.transposed) { hr.format(DT(3)); A.apply(hl, hr); } else { hl.format(DT(5)); A.apply_transposed(hr, hl); }
+              }
               if(iface == 1)
               {
                 if constexpr(has_dense_iface)
